@@ -8,8 +8,10 @@
 From Coq Require Import List ZArith Bool Arith.
 Import ListNotations.
 From SV Require Import C01.SatSpec C01.Machine C01.DeepCdcl.
-From SV Require C01.DeepBase C01.DeepTrail C01.DeepTrailProp C01.DeepAnalyze C01.DeepWatch C01.DeepReason C01.DeepReasonProp.
-Import DeepTrail DeepTrailProp DeepAnalyze DeepWatch DeepReason DeepReasonProp.
+From SV Require C01.DeepBase C01.DeepTrail C01.DeepTrailProp C01.DeepAnalyze C01.DeepWatch C01.DeepReason C01.DeepReasonProp
+  C01.DeepRunOps C01.DeepReduce C01.DeepRun C01.DeepInit C01.DeepJ C01.DeepJOps C01.DeepJProp C01.DeepJAttach C01.DeepJLearn
+  C01.DeepJReduce C01.DeepJRun.
+Import DeepTrail DeepTrailProp DeepAnalyze DeepWatch DeepReason DeepReasonProp DeepRun DeepJ DeepJProp DeepJRun.
 
 (* ---- (a) deep_trail_inv (T): vals / trail / trail_lim / levels / prop_head are consistent:
    no variable twice on the trail, a variable is assigned iff it is on the trail, prop_head <= len(trail), trail_lim is
@@ -77,6 +79,47 @@ Print Assumptions deep_reason_inv_propagate.
 Theorem deep_reason_inv_discharges : forall s, BI s -> trail_inv s /\ db_nonzero s /\ reason_ok s /\ decision_first s.
 Proof. exact DeepReasonProp.BI_analyze_hyps. Qed.
 Print Assumptions deep_reason_inv_discharges.
+
+(* ---- the whole run: for every valid input (no literal 0, assumption variables within range), every option value, every
+   decision oracle and every fuel, every state the main loop goes through satisfies the loop invariant LI:
+   the bundle BI - hence (T), (b) and the "at most" half of (W) - holds, dec_level = len(trail_lim), and a recorded
+   conflict is a falsified clause of the database with a literal of the current level (or the level is 0).
+   It covers backjumping, learned-clause attachment and assertion, restarts with reduce_db, blocking clauses, decisions. ---- *)
+Theorem deep_run_inv : forall fuel cls A mc mr limit lf orc P L0 L, valid_input cls A = true ->
+  init_loop fuel cls A mc mr limit lf orc = ILoop P L0 -> reach fuel P L0 L -> LI P L.
+Proof. exact DeepInit.run_LI. Qed.
+Print Assumptions deep_run_inv.
+
+(* (c) without hypotheses on the state: during any run, the clause analyze() learns is entailed by the clause database of that
+   moment - the per-run RUP check of the guarded machine is discharged by proof for the model *)
+Theorem deep_learned_entailed_run : forall fuel cls A mc mr limit lf orc P L0 L ci lc bt lbd, valid_input cls A = true ->
+  init_loop fuel cls A mc mr limit lf orc = ILoop P L0 -> reach fuel P L0 L ->
+  l_conflict L = CAt ci -> l_dec_level L <> 0%nat -> analyze (l_st L) ci = Some (lc, bt, lbd) -> entails (db (l_st L)) lc.
+Proof. exact DeepInit.run_learned_entailed. Qed.
+Print Assumptions deep_learned_entailed_run.
+
+(* ---- (d) deep_watch_inv (W + J).
+   W: every clause of the database is looked after (cov_all): a unit clause is true at level 0; a longer clause stands in
+      the watch lists of its literals at positions 0 and 1 at least as often as they occur there - together with watch_le of
+      the bundle BI: EXACTLY on positions 0 and 1 - or, if binary, in both implication lists.
+   J: no clause has both literals of positions 0/1 false and processed (fp = false and its trail entry before prop_head).
+   propagate() keeps W and J; when it reports a conflict J is weakened to JC (a violating clause has a literal of the current
+   level - the backjump that follows unassigns it). ---- *)
+Theorem deep_watch_inv_propagate : forall fuel A s s' c, assum_ok (nv s) A ->
+  BI s /\ arr_len s /\ cov_all s /\ J s -> propagate fuel A s = Some (s', c) ->
+  match c with
+  | CNone => BI s' /\ arr_len s' /\ cov_all s' /\ J s'
+  | CAt _ => BI s' /\ arr_len s' /\ cov_all s' /\ JC s'
+  | CAssum => True
+  end.
+Proof. exact DeepJProp.propagate_PJ. Qed.
+Print Assumptions deep_watch_inv_propagate.
+
+(* for every state of every run: LJ = (no conflict pending: W and J) / (conflict pending at level >= 1: W and JC) *)
+Theorem deep_watch_inv : forall fuel cls A mc mr limit lf orc P L0 L, valid_input cls A = true ->
+  init_loop fuel cls A mc mr limit lf orc = ILoop P L0 -> reach fuel P L0 L -> LI P L /\ LJ L.
+Proof. exact DeepJRun.run_LJ. Qed.
+Print Assumptions deep_watch_inv.
 
 (* ---- non-vacuity: the model reproduces real runs of /repo (solve_sat under both hooks) ---- *)
 Definition dx_N : cnf := [[1; 2; 3]; [-1; -2]; [-2; -3]; [1; -3; 4]; [-4; 2; 1]; [-1; -4]]%Z.
